@@ -10,7 +10,7 @@ def main():
     chk.functions += ['LAFEM::UnitFilter::{filter_rhs,sol,def,cor,filter_mat,filter_offdiag_row_mat,filter_weak_matrix_rows}', 'LAFEM::UnitFilterBlocked<2|3>::{filter_*, filter_mat(BCSR), filter_offdiag_row_mat(BCSR)}',
                       'LAFEM::SlipFilter<2|3>::{filter_rhs,filter_def}', 'LAFEM::MeanFilter::{filter_rhs,def,cor,sol}', 'LAFEM::FilterChain / FilterSequence / TupleFilter', 'LAFEM::Arch::{UnitFilter,UnitFilterBlocked,SlipFilter}::*_generic<SymReal>', 'LAFEM::SparseVector(Blocked)::operator() insertion']
     chk.assume(*e2prop.E2_ASSUME)
-    chk.assume('slip normals have non-zero length; mean filter weights and primal vector positive (constructor precondition volume > 0)', 'ignore_nans = false')
+    chk.assume('slip normals have non-zero length; mean filter weights and primal vector positive (constructor precondition volume > 0)', 'ignore_nans mode: NaN is a reserved marker value recognised by Math::isnan<SymReal> (all NaN masks of one prescribed block are swept)')
     e2prop.run_e2(chk, e2prop.e2_harness_path('c06_e2.cpp'), 'c06_e2', timeout=60, harness_args=['--bounds', n])
     return chk.finish(
         explanation='Bounded symbolic check: the real filter classes run on a symbolic real scalar for every index-set configuration in the bound; z3 decides for ALL real vector contents / prescribed values / normals / weights that constrained entries take the prescribed value (resp. 0), the normal component / weighted mean vanishes exactly, unconstrained entries are unchanged, a second application changes nothing, and filtered matrix rows are unit rows.',
